@@ -157,6 +157,49 @@ def run_special(kind, acc, only=None):
                                   expected=repr(gridproof.flatten(ref(**kw)))[:300])
 
 
+def exact_poly2bez(coeffs_high_first):
+    """Bezier control points of a polynomial given by exact coefficients (highest power first)"""
+    c = [Fraction(x) for x in coeffs_high_first][::-1]         # lowest first
+    n = len(c) - 1
+    # power basis -> Bernstein: b_i = sum_{j<=i} C(i,j)/C(n,j) * c_j
+    return [sum(Fraction(math.comb(i, j), math.comb(n, j)) * c[j] for j in range(i + 1)) for i in range(n + 1)]
+
+
+def run_native_coefficients(acc, only=None):
+    """polynomial -> Bezier conversion for coefficients given as Python ints, int ndarrays, int poly1d,
+    floats, Fractions: integer input must not be processed in integer arithmetic"""
+    vals = (-2, 0, 1, 3)
+    for n in (1, 2, 3):
+        for cs in itertools.product(vals, repeat=n + 1):
+            if cs[0] == 0:
+                continue
+            want = exact_poly2bez(cs)
+            for form in ('int_list', 'int_tuple', 'int_ndarray', 'int_poly1d', 'float_list', 'complex_list'):
+                case = {'what': 'native_coefficients', 'coeffs': list(cs), 'form': form}
+                if only and case != only:
+                    continue
+                if form == 'int_list':
+                    arg = [int(x) for x in cs]
+                elif form == 'int_tuple':
+                    arg = tuple(int(x) for x in cs)
+                elif form == 'int_ndarray':
+                    arg = np.array(cs, dtype=np.int64)
+                elif form == 'int_poly1d':
+                    arg = np.poly1d(np.array(cs, dtype=np.int64))
+                elif form == 'float_list':
+                    arg = [float(x) for x in cs]
+                else:
+                    arg = [complex(x) for x in cs]
+                acc.case(case, cls='native_coefficients/%s' % form)
+                for fn_name, fn in (('poly2bez', lambda: list(poly2bez(arg, return_bpoints=True))),
+                                    ('polynomial2bezier', lambda: list(polynomial2bezier(arg)))):
+                    r = outcome(fn)
+                    ok = r[0] == 'ok' and len(r[1]) == len(want) and all(abs(complex(a) - complex(b)) <= 1e-12 for a, b in zip(r[1], want))
+                    if not ok:
+                        acc.violation('identity_fails_on_native_number_type', {'fn': fn_name, 'form': form}, case,
+                                      observed=repr(r)[:200], expected=[str(x) for x in want])
+
+
 def tier_params(tier, seed):
     if tier == 'quick':
         return {'choices': [0, 1 + seed % 3], 'scales': [1e-3, 1.0, 1e3, 1e6]}
@@ -174,6 +217,7 @@ def shards(tier, seed):
         else:
             out.append({'what': 'float', 'kind': kind})
         out.append({'what': 'special', 'kind': kind})
+    out.append({'what': 'native_coefficients'})
     return out
 
 
@@ -302,13 +346,15 @@ def run_shard(desc, tier, seed):
         run_exact(desc['kind'], desc['choice'], acc)
     elif desc['what'] == 'special':
         run_special(desc['kind'], acc)
+    elif desc['what'] == 'native_coefficients':
+        run_native_coefficients(acc)
     else:
         run_float(desc['kind'], tier_params(tier, seed)['scales'], acc, tier=tier, part=desc.get('part'))
     return acc
 
 
 def expected_classes(tier):
-    out = []
+    out = ['native_coefficients/int_list', 'native_coefficients/int_poly1d']
     for kind in 'LQC':
         n = CLASSES[kind][1]
         for name in ['point', 'poly_coeffs', 'poly1d_call', 'points', 'poly2bez_of_poly', 'bez2poly_numpy_order'] + \
@@ -345,7 +391,9 @@ def space(tier, seed):
 
 def replay(case):
     acc = core.ReplayAcc()
-    if case['what'] == 'exact':
+    if case['what'] == 'native_coefficients':
+        run_native_coefficients(acc, only=case)
+    elif case['what'] == 'exact':
         run_exact(case['kind'], case['choice'], acc, only=case['identity'])
     elif case['what'] == 'special':
         run_special(case['kind'], acc, only=case['identity'])
